@@ -645,6 +645,38 @@ pub fn gen_c04(out: &mut impl Write, seed: u64, thorough: bool) {
                 writeln!(out, "seal.open {} {} {} want=err", be.name(), hex(&psk), hex(format!("k{}.seal.{}", be.version(), b64(&content)).as_bytes())).unwrap();
             }
         }
+        // password-wrapped blobs whose cost parameters sit on the edges of what each back end accepts
+        // (zero iterations / memory / passes / lanes, memory below the minimum or not a whole KiB, lanes > memory)
+        let edges: Vec<Vec<u8>> = if be.version() % 2 == 1 {
+            [0u32, 1, 2].iter().map(|i| i.to_be_bytes().to_vec()).collect()
+        } else {
+            let mut v = vec![];
+            for mem in [0u64, 1, 1023, 1024, 8191, 8192, 8193, 9000, 65536] {
+                for time in [0u32, 1] {
+                    for para in [0u32, 1, 2, 9] {
+                        let mut p = mem.to_be_bytes().to_vec();
+                        p.extend(time.to_be_bytes());
+                        p.extend(para.to_be_bytes());
+                        v.push(p);
+                    }
+                }
+            }
+            v
+        };
+        for p in &edges {
+            for k in kinds() {
+                let kn = if k == Kind::Local { "local" } else { "secret" };
+                for len in [0usize, 47, 48, 99, 100, 116, 128, 132, 148, 180, 300] {
+                    for fill in 0..3 {
+                        let (a, b) = if be.version() % 2 == 1 { (32, 36) } else { (16, 32) };
+                        if len < b && fill > 0 { continue; }
+                        let mut blob = match fill { 0 => vec![0u8; len], 1 => vec![0xff; len], _ => r.bytes(len) };
+                        if blob.len() >= b { blob[a..b].copy_from_slice(p); }
+                        writeln!(out, "pw.open {} {} {} {} want=err", be.name(), k.name(), hex(b"pw"), hex(format!("k{}.{kn}-pw.{}", be.version(), b64(&blob)).as_bytes())).unwrap();
+                    }
+                }
+            }
+        }
         if be == Be::V1 {
             for len in [591usize, 592, 593, 560, 80] {
                 writeln!(out, "seal.open v1 {} {} want=err", hex(&psk), hex(format!("k1.seal.{}", b64(&r.bytes(len))).as_bytes())).unwrap();
